@@ -78,6 +78,101 @@ void h_step(void)
 #endif
 #endif
 
+
+/* ------------------------------------------------------------------ S: concat / swap on ring neighbourhoods
+ * A ring with k nodes is represented by its head, its first node F and last node T (F == T for
+ * k == 1, F <-> T adjacent for k == 2); for k >= 3 the unknown middle is a pair of sentinel nodes
+ * (F->n = &M1, T->p = &M2) that must stay untouched, and the size is any value >= 3.  So the
+ * statement holds for rings of every length: concat splices exactly at the two heads, swap
+ * re-points exactly the first and last node at the new head. */
+#if defined(VF_STEP2) && !defined(VF_NATIVE)
+struct vf_ring { struct cstl_dlist l; struct cstl_dlist_node F, T, M1, M2; int k; size_t size; };
+static void vf_ring_make(struct vf_ring * r, int k, size_t big)
+{
+    r->k = k;
+    r->l.off = 8;
+    r->M1.n = r->M1.p = r->M2.n = r->M2.p = NULL;
+    r->F.n = r->F.p = r->T.n = r->T.p = NULL;
+    if (k == 0) { r->l.h.n = r->l.h.p = &r->l.h; r->size = 0; }
+    else if (k == 1) { r->l.h.n = r->l.h.p = &r->F; r->F.n = r->F.p = &r->l.h; r->size = 1; }
+    else {
+        r->l.h.n = &r->F; r->l.h.p = &r->T; r->F.p = &r->l.h; r->T.n = &r->l.h;
+        if (k == 2) { r->F.n = &r->T; r->T.p = &r->F; r->size = 2; }
+        else { r->F.n = &r->M1; r->T.p = &r->M2; r->size = big; }
+    }
+    r->l.size = r->size;
+}
+#define RFIRST(r) ((r)->k == 0 ? NULL : &(r)->F)
+#define RLAST(r)  ((r)->k == 0 ? NULL : ((r)->k == 1 ? &(r)->F : &(r)->T))
+static void vf_ring_untouched_middle(struct vf_ring * r)
+{
+    VF_ASSERT(r->M1.n == NULL && r->M1.p == NULL && r->M2.n == NULL && r->M2.p == NULL, "dlist step: the unknown middle of a ring is not touched");
+    if (r->k >= 3) {
+        VF_ASSERT(r->F.n == &r->M1 && r->T.p == &r->M2, "dlist step: the inner links of the first and last node are kept");
+    } else if (r->k == 2) {
+        VF_ASSERT(r->F.n == &r->T && r->T.p == &r->F, "dlist step: the link between the two nodes is kept");
+    }
+}
+/* the ring of `r` hangs under head `h` with the given size */
+static void vf_ring_under(struct vf_ring * r, struct cstl_dlist * h, size_t size)
+{
+    VF_ASSERT(h->size == size, "dlist step: size");
+    if (r->k == 0) {
+        VF_ASSERT(h->h.n == &h->h && h->h.p == &h->h, "dlist step: an empty ring is the head linked to itself");
+    } else {
+        VF_ASSERT(h->h.n == RFIRST(r) && h->h.p == RLAST(r) && RFIRST(r)->p == &h->h && RLAST(r)->n == &h->h,
+                  "dlist step: first and last node are linked with the head both ways");
+    }
+}
+void h_step2(void)
+{
+    int kd, ks;
+    for (kd = 0; kd <= 3; kd++) {
+        for (ks = 0; ks <= 3; ks++) {
+            struct vf_ring d, s;
+            size_t bd = nondet_size_t(), bs = nondet_size_t();
+            __CPROVER_assume(bd >= 3 && bs >= 3 && bd <= SIZE_MAX / 2 && bs <= SIZE_MAX / 2);
+            vf_ring_make(&d, kd, bd);
+            vf_ring_make(&s, ks, bs);
+#if VF_STEP2 == 1
+            cstl_dlist_concat(&d.l, &s.l);
+            vf_ring_untouched_middle(&d); vf_ring_untouched_middle(&s);
+            VF_ASSERT(d.l.off == 8 && s.l.off == 8, "concat: offsets kept");
+            if (ks == 0) {
+                vf_ring_under(&d, &d.l, d.size);
+                vf_ring_under(&s, &s.l, 0);
+            } else {
+                /* d's ring followed by s's ring under d's head; s empty and usable */
+                VF_ASSERT(d.l.size == d.size + s.size, "concat: the destination has all the elements");
+                VF_ASSERT(s.l.size == 0 && s.l.h.n == &s.l.h && s.l.h.p == &s.l.h, "concat: the source is left empty and usable");
+                VF_ASSERT(d.l.h.n == (kd == 0 ? RFIRST(&s) : RFIRST(&d)) && d.l.h.n->p == &d.l.h, "concat: the first element is the destination's first (or the source's, if it was empty)");
+                VF_ASSERT(d.l.h.p == RLAST(&s) && RLAST(&s)->n == &d.l.h, "concat: the last element is the source's last");
+                if (kd > 0) {
+                    VF_ASSERT(RLAST(&d)->n == RFIRST(&s) && RFIRST(&s)->p == RLAST(&d), "concat: the source's first element follows the destination's last, both ways");
+                }
+            }
+#else
+            cstl_dlist_swap(&d.l, &s.l);
+            vf_ring_untouched_middle(&d); vf_ring_untouched_middle(&s);
+            vf_ring_under(&s, &d.l, s.size);
+            vf_ring_under(&d, &s.l, d.size);
+            VF_ASSERT(d.l.off == 8 && s.l.off == 8, "swap: offsets exchanged");
+#endif
+            VF_REACH(kd == 3 && ks == 3, "largest neighbourhood reached");
+        }
+    }
+#if VF_STEP2 == 1
+    {   /* concat onto itself is a no-op (swap with itself is outside the domain: cstl_swap copies with memcpy) */
+        struct vf_ring d;
+        vf_ring_make(&d, 2, 2);
+        cstl_dlist_concat(&d.l, &d.l);
+        vf_ring_under(&d, &d.l, 2); vf_ring_untouched_middle(&d);
+    }
+#endif
+    VF_END();
+}
+#endif
+
 /* ------------------------------------------------------------------ B: reference-sequence checks */
 static int vf_cmp_key(const void * a, const void * b, void * p)
 {
